@@ -54,7 +54,7 @@ func checkC09(ctx *Ctx) {
 	if ctx.Shard == 0 {
 		c09Witnesses(ctx)
 	}
-	nw := ctx.N(10, 80)
+	nw := ctx.N(30, 120)
 	for wi := 0; wi < nw; wi++ {
 		if !ctx.Mine(wi) {
 			continue
@@ -123,7 +123,7 @@ func checkC09(ctx *Ctx) {
 			c09Workload(ctx, w, 1000+pos)
 		}
 	}
-	for i := 0; i < ctx.N(6, 40); i++ {
+	for i := 0; i < ctx.N(16, 60); i++ {
 		if ctx.Mine(i + 3) {
 			ctx.SetCurrent(fmt.Sprintf("C09 concurrent writer case %d", i))
 			c09Concurrent(ctx, i)
